@@ -3,7 +3,7 @@
 // Layer IP: generated bash commands (TERM-ignoring / TERM-handling mains, background children that
 // hold the output pipes or detach from them, fork chains, double-forked orphans, output floods,
 // children that leave the process group with setsid) are run through one shared
-// process.New() executor with ExecWithTimeout / ExecWithTimeoutShell and timeouts of 100-700 ms (20 s for commands that end by themselves and leave nothing on the pipes).
+// process.New() executor with ExecWithTimeout / ExecWithTimeoutShell and timeouts of 150-900 ms (20 s for commands that end by themselves and leave nothing on the pipes).
 // Layer E2E: the same commands as genrule / gentest with `timeout = 1`, run by the real plz binary.
 //
 // Oracle: every process the action starts carries a unique VERIF_MARK=<id> in its environment; after
@@ -26,7 +26,7 @@ import (
 	"os"
 	"path/filepath"
 	"regexp"
-	"runtime/pprof"
+	"runtime"
 	"sort"
 	"strconv"
 	"strings"
@@ -132,7 +132,7 @@ func (s *spec) nontrivial() bool {
 }
 
 func genSpec(rng *rand.Rand, e2e bool) *spec {
-	s := &spec{TimeoutMS: 100 + rng.Intn(601), ExitOnErr: rng.Intn(2) == 0, WithTarget: rng.Intn(2) == 0}
+	s := &spec{TimeoutMS: 150 + rng.Intn(751), ExitOnErr: rng.Intn(2) == 0, WithTarget: rng.Intn(2) == 0}
 	mains := []mainKind{mainSleep, mainSleep, mainExecSleep, mainLoop, mainWait, mainWait, mainExitNow, mainExitNow, mainExitFail, mainAtDeadline, mainBusy}
 	s.Main = mains[rng.Intn(len(mains))]
 	if !e2e && rng.Intn(16) == 0 {
@@ -431,21 +431,37 @@ type callResult struct {
 	elapsed        time.Duration
 }
 
-// blockedInExec looks up the goroutine labelled with this case's marker in the goroutine profile and
-// reports whether it sits inside ExecWithTimeout in a blocking runtime call. This, not the elapsed time,
-// is what makes a late call a "blocked" call.
-func blockedInExec(mark string) (bool, string) {
-	var buf bytes.Buffer
-	if p := pprof.Lookup("goroutine"); p == nil || p.WriteTo(&buf, 1) != nil {
+// goid returns the calling goroutine's id (first line of its own traceback).
+func goid() string {
+	buf := make([]byte, 64)
+	buf = buf[:runtime.Stack(buf, false)]
+	f := strings.Fields(string(buf))
+	if len(f) >= 2 && f[0] == "goroutine" {
+		return f[1]
+	}
+	return ""
+}
+
+// blockedInExec finds the given goroutine in a full traceback and reports whether the runtime shows it
+// inside ExecWithTimeout in a waiting state. This, not the elapsed time, is what makes a late call a
+// "blocked" call.
+func blockedInExec(id string) (bool, string) {
+	if id == "" {
 		return false, ""
 	}
-	for _, g := range strings.Split(buf.String(), "\n\n") {
-		if !strings.Contains(g, `"c30case":"`+mark+`"`) || !strings.Contains(g, "process.(*Executor).ExecWithTimeout") {
+	buf := make([]byte, 1<<23)
+	buf = buf[:runtime.Stack(buf, true)]
+	for _, g := range strings.Split(string(buf), "\n\n") {
+		head, _, _ := strings.Cut(g, "\n")
+		if !strings.HasPrefix(head, "goroutine "+id+" [") || !strings.Contains(g, "process.(*Executor).ExecWithTimeout") {
 			continue
 		}
-		for _, st := range []string{"runtime.chanrecv", "runtime.selectgo", "runtime.gopark", "sync.", "internal/poll.", "runtime.semacquire"} {
-			if strings.Contains(g, st) {
-				return true, lib.Tail(g, 3000)
+		for _, st := range []string{"chan receive", "chan send", "select", "semacquire", "IO wait", "sync.", "sleep"} {
+			if strings.Contains(head, st) {
+				if len(g) > 3000 {
+					g = g[:3000] // the innermost frames come first
+				}
+				return true, g
 			}
 		}
 	}
@@ -459,6 +475,9 @@ var noReturns int64
 const maxNoReturns = 3
 
 var e2eNoReturns int64
+
+// firstWriterCase: lowest ip case index whose setsid child was writing to the output pipes (-1 = none).
+var firstWriterCase int64 = -1
 
 type ipOutcome struct {
 	res       callResult
@@ -480,7 +499,9 @@ func runIP(exec *process.Executor, s *spec, dir, mark string) ipOutcome {
 	timeout := time.Duration(s.TimeoutMS) * time.Millisecond
 	script := s.render(dir)
 	done := make(chan callResult, 1)
-	go pprof.Do(context.Background(), pprof.Labels("c30case", mark), func(context.Context) {
+	gid := make(chan string, 1)
+	go func() {
+		gid <- goid()
 		start := time.Now()
 		var out, outerr []byte
 		var err error
@@ -498,7 +519,7 @@ func runIP(exec *process.Executor, s *spec, dir, mark string) ipOutcome {
 		}
 		// only the lengths: the contents may still be written by a copier goroutine if Please returned early
 		done <- callResult{outLen: len(out), errLen: len(outerr), err: err, elapsed: time.Since(start)}
-	})
+	}()
 	o := ipOutcome{markerEnv: "VERIF_MARK=" + mark}
 	select {
 	case o.res = <-done:
@@ -506,7 +527,7 @@ func runIP(exec *process.Executor, s *spec, dir, mark string) ipOutcome {
 	case <-time.After(timeout + killAllowance + watchdogSlack):
 		o.watchdog = true
 		atomic.AddInt64(&noReturns, 1)
-		if b, dump := blockedInExec(mark); b {
+		if b, dump := blockedInExec(<-gid); b {
 			o.blocked = dump
 		}
 		// release whatever it waits for and give it another generous chance to come back
@@ -538,6 +559,15 @@ type e2eOutcome struct {
 	readyEsc int
 	armed    bool
 	build    string
+}
+
+// phase: did plz report the action as timed out?
+func (o e2eOutcome) phase() string {
+	all := o.res.Stdout + o.res.Stderr
+	if strings.Contains(all, "deadline exceeded") || strings.Contains(strings.ToLower(all), "timed out") {
+		return "after-timeout"
+	}
+	return "after-normal-exit"
 }
 
 func runE2E(bin string, s *spec, work, mark string) e2eOutcome {
@@ -616,7 +646,7 @@ func TestC30(t *testing.T) {
 	cli.InitLogging(0) // Please logs "Failed to kill inferior process" at error level when a setsid child keeps the pipes; expected here
 	r := lib.Start("C30")
 	defer lib.End(t, r)
-	r.Rule = "case = one generated bash command (main line: sleeps / execs / loops / busy / waits / ends at once / ends at the deadline, SIGTERM default, ignored or handled; 0-3 background items: children holding or detaching from the output pipes, TERM-ignoring, fork chains, double-forked orphans, output floods, TERM-handling loops, setsid escapees) run once with a 100-700 ms timeout through a shared process.Executor (stream ip) or as a genrule/gentest with timeout=1 through plz (stream e2e); distinct by script+timeout+entry point; non-trivial = the command starts at least one background process or its main line does not die from SIGTERM"
+	r.Rule = "case = one generated bash command (main line: sleeps / execs / loops / busy / waits / ends at once / ends at the deadline, SIGTERM default, ignored or handled; 0-3 background items: children holding or detaching from the output pipes, TERM-ignoring, fork chains, double-forked orphans, output floods, TERM-handling loops, setsid escapees) run once with a 150-900 ms timeout through a shared process.Executor (stream ip) or as a genrule/gentest with timeout=1 through plz (stream e2e); distinct by script+timeout+entry point; non-trivial = the command starts at least one background process or its main line does not die from SIGTERM"
 	r.Assumes = []string{
 		"every process of an action inherits the VERIF_MARK variable of the action's environment (no generated command clears its environment)",
 		"a live, non-zombie process seen in three consecutive /proc scans without a pending SIGKILL after the call returned is not going to be killed by Please",
@@ -627,7 +657,7 @@ func TestC30(t *testing.T) {
 	exec := process.New()
 	ov := &overshoot{bucket: map[string]int{}}
 
-	checkSurvivors := func(layer string, s *spec, phase string, set settled, i int, wit map[string]any, rerun func(*spec) settled) {
+	checkSurvivors := func(layer string, s *spec, phase string, set settled, i int, wit map[string]any, rerun func(*spec) (settled, string)) {
 		if set.Inconclusive != "" {
 			r.Inconclusive(fmt.Sprintf("%s case %d: %s", layer, i, set.Inconclusive))
 			return
@@ -638,21 +668,42 @@ func TestC30(t *testing.T) {
 		if len(set.Survivors) == 0 {
 			return
 		}
-		// minimise: the same main line with a single background item, first one that still leaves a survivor
+		// minimise while survivors remain in the same phase: a single background item, default SIGTERM
+		// handling, the simplest main line, the plainest entry point
 		min := s
 		minSurv := set.Survivors
-		if len(s.Bg) > 1 && !r.Replaying() {
-			for _, b := range s.Bg {
-				if b.escapes() {
-					continue
+		if !r.Replaying() {
+			try := func(c spec) bool {
+				if lib.JSON(c) == lib.JSON(*min) {
+					return false
 				}
-				c := *s
-				c.Bg = []bgKind{b}
-				if got := rerun(&c); len(got.Survivors) > 0 {
+				if got, ph := rerun(&c); ph == phase && len(got.Survivors) > 0 {
 					min, minSurv = &c, got.Survivors
-					break
+					return true
+				}
+				return false
+			}
+			if len(s.Bg) > 1 {
+				for _, b := range s.Bg {
+					c := *min
+					c.Bg = []bgKind{b}
+					if !b.escapes() && try(c) {
+						break
+					}
 				}
 			}
+			c := *min
+			c.Term = termDefault
+			try(c)
+			c = *min
+			c.Main = map[string]mainKind{"after-normal-exit": mainExitNow, "after-timeout": mainSleep}[phase]
+			if c.Main == mainExitNow && layer == "ip" {
+				c.TimeoutMS = 20000
+			}
+			try(c)
+			c = *min
+			c.ExitOnErr, c.WithTarget = false, layer != "ip"
+			try(c)
 		}
 		wit["minimal_spec"] = min
 		wit["minimal_survivors"] = minSurv
@@ -667,7 +718,7 @@ func TestC30(t *testing.T) {
 	}
 
 	// ---- IP
-	nIP := r.Pick(96, 2400)
+	nIP := r.Pick(96, 1800)
 	r.ForEach("ip", nIP, 8, func(i int, rng *rand.Rand) {
 		s := genSpec(rng, false)
 		if atomic.LoadInt64(&noReturns) >= maxNoReturns {
@@ -690,7 +741,7 @@ func TestC30(t *testing.T) {
 			if o.blocked != "" {
 				wit["goroutine"] = o.blocked
 				site := "unknown"
-				if m := regexp.MustCompile(`please/src/(process\.[A-Za-z0-9_.()*]+)\+`).FindStringSubmatch(o.blocked); m != nil {
+				if m := regexp.MustCompile(`please/src/(process\.[A-Za-z0-9_.()*]+)\(`).FindStringSubmatch(o.blocked); m != nil {
 					site = m[1] // innermost src/process frame of the blocked goroutine
 				}
 				r.Violation("no-return/blocked-in-"+site, fmt.Sprintf("ExecWithTimeout had not returned %s after timeout+kill allowance and its goroutine is blocked", watchdogSlack), wit, i)
@@ -710,22 +761,39 @@ func TestC30(t *testing.T) {
 		if s.neverEnds() && !errors.Is(o.res.err, context.DeadlineExceeded) {
 			r.Violation("wrong-error/"+errClass(o.res.err)+"/"+string(s.Main), fmt.Sprintf("the command cannot end by itself, the timeout was %d ms, but ExecWithTimeout returned %v instead of context.DeadlineExceeded", s.TimeoutMS, o.res.err), wit, i)
 		}
-		checkSurvivors("ip", s, o.phase, o.set, i, wit, func(c *spec) settled {
+		checkSurvivors("ip", s, o.phase, o.set, i, wit, func(c *spec) (settled, string) {
 			d2 := dir + ".min"
 			defer lib.RemoveAll(d2)
-			return runIP(exec, c, d2, mark+".min").set
+			m := runIP(exec, c, d2, mark+".min")
+			return m.set, m.phase
 		})
 		if len(o.set.Survivors) == 0 && o.set.Inconclusive == "" {
 			r.Obs("started_processes_verified_gone", int64(o.ready)+1)
+		}
+		for _, b := range s.Bg {
+			if b == bgEscPipeWriter && o.readyEsc > 0 {
+				for {
+					cur := atomic.LoadInt64(&firstWriterCase)
+					if (cur >= 0 && cur <= int64(i)) || atomic.CompareAndSwapInt64(&firstWriterCase, cur, int64(i)) {
+						break
+					}
+				}
+			}
 		}
 		if r.WantSample() && len(s.Bg) >= 2 {
 			r.Sample(map[string]any{"spec": s, "script": script, "returned": fmt.Sprint(o.res.err), "elapsed_ms": o.res.elapsed.Milliseconds(), "background_started": o.ready, "escapees_seen": len(o.set.Escaped)})
 		}
 	})
 
+	// Race reports of this process can only come from the in-process layer; they are collected while "ip" is
+	// still the current stream, and attributed to the first case whose setsid child kept writing to the
+	// output pipes after the call returned (the situation in which ExecWithTimeout hands out buffers that
+	// os/exec's copier goroutine is still filling), so that --replay re-runs a case that shows it.
+	collectRaces(r, int(atomic.LoadInt64(&firstWriterCase)))
+
 	// ---- E2E
 	if bin := os.Getenv("VERIF_PLZ"); bin != "" {
-		nE := r.Pick(24, 600)
+		nE := r.Pick(24, 400)
 		r.ForEach("e2e", nE, 6, func(i int, rng *rand.Rand) {
 			s := genSpec(rng, true)
 			if atomic.LoadInt64(&e2eNoReturns) >= maxNoReturns {
@@ -750,21 +818,18 @@ func TestC30(t *testing.T) {
 				}
 				return
 			}
-			timedOutReported := strings.Contains(o.res.Stdout+o.res.Stderr, "deadline exceeded") || strings.Contains(strings.ToLower(o.res.Stdout+o.res.Stderr), "timed out")
-			if timedOutReported {
+			phase := o.phase()
+			if phase == "after-timeout" {
 				r.Obs("e2e_timeouts_reported", 1)
-			}
-			phase := "after-normal-exit"
-			if timedOutReported {
-				phase = "after-timeout"
 			}
 			if s.neverEnds() && o.res.Exit == 0 {
 				r.Violation("e2e/reported-success-after-timeout/"+s.Rule, fmt.Sprintf("a %s whose command cannot end by itself, with timeout = 1, was reported as succeeded (plz exit 0)", s.Rule), wit, i)
 			}
-			checkSurvivors("e2e", s, phase, o.set, i, wit, func(c *spec) settled {
+			checkSurvivors("e2e", s, phase, o.set, i, wit, func(c *spec) (settled, string) {
 				w2 := work + ".min"
 				defer lib.RemoveAll(w2)
-				return runE2E(bin, c, w2, mark+".min").set
+				m := runE2E(bin, c, w2, mark+".min")
+				return m.set, m.phase()
 			})
 			if len(o.set.Survivors) == 0 && o.set.Inconclusive == "" {
 				r.Obs("started_processes_verified_gone", int64(o.ready)+1)
@@ -782,7 +847,6 @@ func TestC30(t *testing.T) {
 		// positive control of the census itself: setsid escapees must have been seen alive
 		r.RequireObserved("escapees_alive_after_return_not_asserted")
 	}
-	collectRaces(r)
 }
 
 var raceFn = regexp.MustCompile(`(?m)^  (\S+)\(\)$`)
@@ -790,7 +854,7 @@ var raceFn = regexp.MustCompile(`(?m)^  (\S+)\(\)$`)
 // collectRaces turns race reports with a frame in src/process into violations. The key names, per
 // access, the innermost src/process function on the stack (or the os/exec output copier Please started),
 // so that one defect keeps one key whatever bytes.Buffer internals happen to touch the memory.
-func collectRaces(r *lib.Run) {
+func collectRaces(r *lib.Run, caseIndex int) {
 	prefix := lib.OwnRaceLogPrefix()
 	if prefix == "" {
 		return
@@ -819,11 +883,15 @@ func collectRaces(r *lib.Run) {
 				// (whether or not a progressWriter sits in between)
 				side = "os/exec-output-copier"
 			} else {
-				// the outermost src/process function of the stack (safeBuffer.Bytes called from ExecWithTimeout is
-				// ExecWithTimeout handing out its buffers)
+				// ExecWithTimeout if it is anywhere on the stack (safeBuffer.Bytes called from it is ExecWithTimeout
+				// handing out its buffers), else the innermost src/process function
 				for _, m := range raceFn.FindAllStringSubmatch(part, -1) {
-					if k := strings.Index(m[1], "please/src/process."); k >= 0 {
+					if k := strings.Index(m[1], "please/src/process."); k >= 0 && side == "" {
 						side = m[1][k+len("please/src/"):]
+					}
+					if strings.HasSuffix(m[1], "please/src/process.(*Executor).ExecWithTimeout") {
+						side = "process.(*Executor).ExecWithTimeout" // whichever wrapper called it, whichever buffer it touches
+						break
 					}
 				}
 			}
@@ -837,17 +905,6 @@ func collectRaces(r *lib.Run) {
 		if len(txt) > 6000 {
 			txt = txt[:6000]
 		}
-		r.Violation("race:"+strings.Join(sides, "|"), "data race reported by the Go race detector with a frame in src/process: "+strings.Join(sides, " vs "), map[string]any{"report": txt}, -1)
+		r.Violation("race:"+strings.Join(sides, "|"), "data race reported by the Go race detector with a frame in src/process: "+strings.Join(sides, " vs "), map[string]any{"report": txt, "note": "case_index is the first in-process case whose setsid child kept writing to the action's output pipes"}, caseIndex)
 	}
-}
-
-func kinds(b []bgKind) []string {
-	set := map[string]bool{}
-	for _, k := range b {
-		set[string(k)] = true
-	}
-	if len(set) == 0 {
-		return []string{"no-background"}
-	}
-	return x.SortedKeys(set)
 }
